@@ -11,7 +11,7 @@ AVAIL_CALLS = {"circular_buffer::BufferState::free", "circular_buffer::BufferSta
 RAW = {"std::slice::from_raw_parts_mut", "std::slice::from_raw_parts"}
 
 
-def ring_writes(body):
+def _ring_writes_direct(body):
     out = []
     for bb, blk in enumerate(body.blocks):
         for s in blk["stmts"]:
@@ -20,6 +20,58 @@ def ring_writes(body):
             last = s["dst"]["p"][-1]
             if isinstance(last, dict) and last.get("o") == STATE_ADT and last.get("n") in RING_FIELDS:
                 out.append((bb, last["n"], s))
+    return out
+
+
+def _facts_of(body):
+    try:
+        from ..effects import _FACTS_FOR_VERDICTS
+        return _FACTS_FOR_VERDICTS.get(id(body))
+    except Exception:
+        return None
+
+
+def _is_state_helper(facts, b):
+    """a non-public function that writes ring fields through a parameter (typically a BufferState method such as
+    `advance_write(&mut self, n)`): it is judged at its call sites, as if inlined"""
+    if b.kind == "closure" or not _ring_writes_direct(b):
+        return False
+    if (b.vis or "").startswith("Public") and b.self_adt != STATE_ADT:
+        return False
+    if b.self_adt != STATE_ADT:
+        return False
+    return bool(facts and list(facts.callers_of(b.q)))
+
+
+def rw_rv_expr(body, st):
+    return st["_rv_expr"] if "_rv_expr" in st else body.rvalue_expr(st["rv"])
+
+
+def rw_dst_expr(body, st):
+    return st["_dst_expr"] if "_dst_expr" in st else body.place_expr(st["dst"])
+
+
+def ring_writes(body, depth=0):
+    """writes of the ring fields by this body - including those made for it by BufferState helper methods it calls
+    (reported at the call site with the helper's expressions rewritten in terms of the caller's arguments)"""
+    facts = _facts_of(body)
+    if facts is not None and depth == 0 and _is_state_helper(facts, body):
+        return []
+    out = list(_ring_writes_direct(body))
+    if facts is None or depth > 2:
+        return out
+    for bb, t in body.calls():
+        for q in Body.callee_qs(t):
+            for hb in facts.by_q.get(q, []):
+                if hb is body or not _is_state_helper(facts, hb):
+                    continue
+                actual = {i + 1: body.operand_expr(a) for i, a in enumerate(t["args"])}
+                for hbb, fld, hst in _ring_writes_direct(hb) + [x for x in ring_writes(hb, depth + 1) if "_rv_expr" in x[2]]:
+                    rv = subst_params(peel(rw_rv_expr(hb, hst), through_try=False), actual)
+                    dst = subst_params(rw_dst_expr(hb, hst), actual)
+                    sp = t.get("sp") or hst["sp"]
+                    out.append((bb, fld, {"k": "assign", "sp": {"f": body.file, "l": sp.get("l", 0)}, "dst": hst["dst"], "rv": hst["rv"],
+                                          "_rv_expr": rv, "_dst_expr": dst, "_via": hb.q}))
     return out
 
 
@@ -229,7 +281,7 @@ def rule_r6(facts, col, rule_id="C01.R6"):
             if fld not in ("rpos", "wpos"):
                 continue
             key = "%s:%s<capacity" % (body.q, fld)
-            e = body.rvalue_expr(st["rv"])
+            e = rw_rv_expr(body, st)
             p = peel(expand_local_call(facts, e), through_try=False)
             if p.k == "bin" and p.op == "Rem" and _is_capacity(p.b):
                 col.ok(rule_id, key, body.where(bb), "stored as (..) % capacity()")
